@@ -516,6 +516,16 @@ def template_programs(rng):
     out.append(('bare:call', program([], {}, {'f1': f1, 'main': proc(False, [], [], putc(call('f1', [num(64)])))}, {}, {}, ['f1', 'main'])))
     out.append(('bare:onevar', program(['g'], {}, {'main': proc(False, [], [], seq([ass(var('g'), num(5)), putc(var('g'))]))}, {}, {}, ['main'])))
     out.append(('bare:onearr', program([], {'z': 1}, {'main': proc(False, [], [], seq([ass(idx('z', num(0)), num(5)), putc(idx('z', num(0)))]))}, {}, {}, ['main'])))
+    # a formal, a local variable, a local val and an array formal that hide a global VAL of the same name (the val must not be propagated into them)
+    sf = proc(True, [('val', 'V5')], [], ret(bi('+', var('V5'), num(1))))
+    sl = proc(True, [('val', 'p')], ['VBIG'], seq([ass(var('VBIG'), bi('+', var('p'), num(2))), ret(bi('+', var('VBIG'), var('VBIG')))]))
+    sv = proc(True, [('val', 'p')], [], ret(bi('+', var('p'), var('VNEG'))), {'VNEG': num(9)})
+    sa = proc(True, [('array', 'V5'), ('val', 'VBIG')], [], ret(bi('+', idx('V5', num(1)), var('VBIG'))))
+    out.append(('scope:valshadow:formal', std_program(seq([putc(call('sf', [num(40)])), exit_(bi('+', call('sf', [num(1000)]), var('V5')))]), {'sf': sf})))
+    out.append(('scope:valshadow:local', std_program(seq([putc(call('sl', [num(30)])), exit_(bi('+', call('sl', [num(3)]), var('VBIG')))]), {'sl': sl})))
+    out.append(('scope:valshadow:localval', std_program(seq([putc(call('sv', [num(50)])), exit_(bi('+', call('sv', [num(1)]), var('VNEG')))]), {'sv': sv})))
+    out.append(('scope:valshadow:array', std_program(seq(init_stmts(rng) + [exit_(bi('+', call('sa', [var('a'), num(3)]), var('V5')))]), {'sa': sa})))
+    out.append(('scope:valshadow:main', std_program(seq([ass(var('V5'), num(60)), putc(var('V5')), exit_(bi('+', var('V5'), var('VBIG')))]), main_locals=['V5'])))
     # local val abbreviations and locals shadowing globals
     lv = proc(True, [('val', 'p')], ['x'], seq([ass(var('x'), bi('+', var('p'), var('W'))), ret(bi('+', var('x'), var('V5')))]), {'W': bi('+', num(1), num(65536))})
     out.append(('scope:localval', std_program(seq(init_stmts(rng) + [putc(call('lv', [num(1)])), exit_(var('x'))]), {'lv': lv})))
@@ -754,13 +764,18 @@ def build_tree(t, mask, rng, leafno, setup, gvals, lvals):
             return call('tk', [num(t[1])])          # a counting call: the same in EVERY placement
         if i in mask:
             how = rng.random()
-            if how < 0.6:
+            if how < 0.5:
                 nm = 'g%d' % i
                 setup.append(('gvar', nm, t[1]))
                 return var(nm)
-            if how < 0.8:
+            if how < 0.65:
                 setup.append(('arr', i % 4, t[1]))
                 return idx('a', num(i % 4))
+            if how < 0.8:
+                # a local variable that hides a global val of another value: a val name must be propagated through the scope rules
+                nm = 's%d' % i
+                setup.append(('lvar', nm, t[1]))
+                return var(nm)
             return call('id', [num(t[1])])
         return const_form(rng, t[1], gvals if rng.random() < 0.7 else lvals)
     if t[0] == 'un':
@@ -778,9 +793,12 @@ def fold_variant(t, mask, rng):
     gv = sorted({s[1] for s in setup if s[0] == 'gvar'})
     ss = []
     used_arr = {}
+    lv = sorted({s[1] for s in setup if s[0] == 'lvar'})
     for s in setup:
-        if s[0] == 'gvar':
+        if s[0] in ('gvar', 'lvar'):
             ss.append(ass(var(s[1]), num(s[2])))
+            if s[0] == 'lvar':
+                gvals[s[1]] = num(w32(s[2] + 77))
         else:
             used_arr[s[1]] = s[2]
     for i, v in used_arr.items():
@@ -791,7 +809,7 @@ def fold_variant(t, mask, rng):
         return None
     tk = proc(True, [('val', 'p')], [], seq([ass(var('cn'), bi('+', var('cn'), num(1))), ret(var('p'))]))
     procs = {'id': lib_procs()['id'], 'tk': tk,
-             'main': proc(False, [], ['res'], seq([ass(var('cn'), num(0))] + ss + [ass(var('res'), e), putc(var('cn')), exit_(var('res'))]), lvals)}
+             'main': proc(False, [], ['res'] + lv, seq([ass(var('cn'), num(0))] + ss + [ass(var('res'), e), putc(var('cn')), exit_(var('res'))]), lvals)}
     return program(gv + ['cn'], {'a': 4}, procs, gvals, None, ['id', 'tk', 'main'])
 
 
